@@ -41,9 +41,13 @@ def _verify(arg):
             from pyvc.api import verify_step
 
             return verify_step(reg, reg.steps[name])
+        if kind == "roundtrip":
+            from pyvc.api import verify_roundtrip
+
+            return verify_roundtrip(reg, reg.roundtrips[name])
         return verify_contract(reg, reg.contracts[name])
     except Exception:
-        return {"contract": {"lemma": "lemma:", "static": "static:", "step": "step:"}.get(kind, "") + name, "status": "engine-error", "unsupported": traceback.format_exc(limit=8),
+        return {"contract": {"lemma": "lemma:", "static": "static:", "step": "step:", "roundtrip": "roundtrip:"}.get(kind, "") + name, "status": "engine-error", "unsupported": traceback.format_exc(limit=8),
                 "obligations": [], "props": [], "functions": [], "assumed_contracts": [], "inlined": [], "paths": 0, "covers": 0, "solver_time_s": 0}
 
 
@@ -81,6 +85,9 @@ def items_for(reg, prop, tier="thorough"):
     for n, l in reg.steps.items():
         if prop in l.props:
             out.append(("step", n))
+    for n, l in reg.roundtrips.items():
+        if prop in l.props and not (l.heavy and tier == "quick"):
+            out.append(("roundtrip", n))
     return out
 
 
@@ -161,7 +168,7 @@ def run_items(items, jobs=16, limit_s=None):
         res = raw.get(it)
         if _is_fail(res):
             kind, name = it
-            out.append({"contract": {"lemma": "lemma:", "static": "static:", "step": "step:"}.get(kind, "") + name,
+            out.append({"contract": {"lemma": "lemma:", "static": "static:", "step": "step:", "roundtrip": "roundtrip:"}.get(kind, "") + name,
                         "status": "undecided" if res[0] == "__timeout__" else "engine-error", "unsupported": res[1], "obligations": [],
                         "props": [], "functions": [], "assumed_contracts": [], "inlined": [], "paths": 0, "covers": 0, "solver_time_s": 0})
         else:
@@ -187,7 +194,7 @@ def run(prop, tier="quick", seed=0, jobs=16):
     native_jobs = []
     for r in results:
         name = r["contract"]
-        if name.startswith("lemma:") or name.startswith("static:") or name.startswith("step:") or name not in reg.contracts:
+        if name.startswith("lemma:") or name.startswith("static:") or name.startswith("step:") or name.startswith("roundtrip:") or name not in reg.contracts:
             continue
         c = reg.contracts[name]
         if c.status == "assumed":
@@ -214,6 +221,10 @@ def run(prop, tier="quick", seed=0, jobs=16):
         discharged += sum(1 for o in obs if o["status"] == "unsat")
         nat_fail, nat_stats = native.get(name, (None, {}))
         if r["status"] == "proved":
+            pass
+        elif r["status"] == "failed" and led != "proved" and nat_fail is None:
+            # never proved on the unchanged tree (not in the ledger): a proof attempt that does not
+            # go through is "not proved", not a violation
             pass
         elif r["status"] == "failed":
             for o in obs:
@@ -289,7 +300,7 @@ def _samples(results):
 
 def relock(props=None):
     reg = load_all_contracts()
-    items = [("contract", n) for n in reg.contracts] + [("lemma", n) for n in reg.lemmas] + [("static", n) for n in reg.statics] + [("step", n) for n in reg.steps]
+    items = [("contract", n) for n in reg.contracts] + [("lemma", n) for n in reg.lemmas] + [("static", n) for n in reg.statics] + [("step", n) for n in reg.steps] + [("roundtrip", n) for n in reg.roundtrips]
     results = run_items(items, limit_s=1500)
     led = {}
     for r in results:
